@@ -27,14 +27,20 @@ NAMES = ["a", "x", "s", "h"]
 DT = {
     "le": [("a", "<i4"), ("x", "<f8", (2,)), ("s", "S3"), ("h", "<i2")],
     "be": [("a", ">i4"), ("x", ">f8", (2,)), ("s", "S3"), ("h", ">i2")],
+    # different item sizes / sub-array rank: other skip distances in the column readers
+    "mix": [("a", "<u8"), ("x", "<f4", (2, 2)), ("s", "S1"), ("h", "i1")],
 }
 
 
 def mk(tid, n):
     d = np.zeros(n, dtype=DT[tid])
     d["a"] = np.arange(n) + 100
-    d["x"] = np.arange(2 * n).reshape(n, 2) / 4 + 0.5
-    d["s"] = [("r%d" % i).encode() for i in range(n)]
+    per = int(np.prod(d.dtype["x"].shape))
+    d["x"] = (np.arange(per * n) / 4 + 0.5).reshape((n,) + d.dtype["x"].shape)
+    if d.dtype["s"].itemsize == 1:
+        d["s"] = [bytes([97 + i % 26]) for i in range(n)]
+    else:
+        d["s"] = [("r%d" % i).encode() for i in range(n)]
     d["h"] = -np.arange(n) - 1
     return d
 
@@ -287,12 +293,13 @@ def main(ctx):
     def row_reps(n):
         return [None, ("scalar", n - 1), ("list", (n - 1, 0, 0)), ("i4", (0,)), ("slice", 1, None, 2)]
 
-    tids = ctx.pick(["le"], ["le", "be"])
+    tids = ctx.pick(["le", "mix"], ["le", "be", "mix"])
     ns = ctx.pick([1, 3, 4], [1, 2, 3, 4, 6])
+    ns_for = {"le": ns, "be": ns, "mix": ctx.pick([3], [1, 4])}
     delims = ctx.pick([None, ","], [None, ",", ":", "\t", " "])
     L = ctx.pick(3, 4)
 
-    units = [(tid, n, delim, style) for tid in tids for n in ns for delim in delims for style in STYLES]
+    units = [(tid, n, delim, style) for tid in tids for n in ns_for[tid] for delim in delims for style in STYLES]
 
     def expand(u):
         tid, n, delim, style = u
